@@ -196,10 +196,11 @@ EndOfPage ==
   /\ cop = "next" /\ nres = None /\ mode # "push" /\ ist = "open" /\ pos = Pg(P).n
   /\ LET p == Pg(P) IN
      CASE p.kind = "bad" ->        \* the next child cannot be decoded: the response stays borrowed until Close
-            /\ ist' = "failed" /\ err' = "decode" /\ nres' = "false" /\ UNCHANGED <<held, released, nextc>>
+            /\ ist' = "failed" /\ err' = (IF "SilentFailure" \in Dev THEN None ELSE "decode")
+            /\ nres' = (IF "TrueWithoutItem" \in Dev THEN "true" ELSE "false") /\ UNCHANGED <<held, released, nextc>>
        [] p.kind = "broken" ->     \* the stream broke under the response: nothing more to read, released
             /\ ist' = "failed" /\ err' = "stream" /\ nres' = "false" /\ Release /\ UNCHANGED nextc
-       [] p.kind = "ok" /\ p.more /\ mode = "auto" ->     \* turn the page: close this response first
+       [] p.kind = "ok" /\ (p.more \/ ("TurnWithoutCursor" \in Dev /\ P < 2)) /\ mode = "auto" ->     \* turn the page: close this response first
             /\ ist' = "between" /\ Release /\ UNCHANGED <<err, nres, nextc>>
        [] OTHER ->
             /\ ist' = "exhausted" /\ nres' = "false" /\ nextc' = (IF p.more THEN P ELSE 0)
@@ -316,11 +317,12 @@ NextTake ==
                  reqs, opened, released, resumed, handled, closes, lastnext>>
 
 -----------------------------------------------------------------------------
-Lib ==
+LibCaller ==     \* steps of the library in the consumer's own goroutine
   \/ SendReq(LibCursor) \/ SendFail \/ CtxDone \/ Examine
   \/ (cop = "next" /\ nres = None /\ mode # "push" /\ ist = "open" /\ pos < Pg(P).n /\ NextItem(<<P, pos + 1>>))
-  \/ EndOfPage \/ NextEnd \/ MayRelease \/ DoClose
-  \/ GSend(LibCursor) \/ GFail \/ GExamine \/ GRemove \/ NextTake
+  \/ EndOfPage \/ NextEnd \/ MayRelease \/ DoClose \/ NextTake
+LibG == GSend(LibCursor) \/ GFail \/ GExamine \/ GRemove      \* goroutine of history.FetchIQ
+Lib == LibCaller \/ LibG
 Serve == ReadEos \/ Handoff \/ ReplyToHandler \/ Resume \/ PushOffer \/ ItemToHandler
 Consumer ==
   \/ \E op \in {"fetch", "next", "close"} : Call(op)
@@ -336,7 +338,7 @@ Spec == Init /\ [][Next]_vars
 (* legitimate); the consumer eventually closes what it opened (the premise of the helpers) *)
 (* and keeps calling Next while the handler offers it an item or, failing that, closes.    *)
 Fair ==
-  /\ WF_vars(Lib) /\ WF_vars(Serve) /\ WF_vars(PeerReply) /\ WF_vars(Cancel)
+  /\ WF_vars(LibCaller) /\ WF_vars(LibG) /\ WF_vars(Serve) /\ WF_vars(PeerReply) /\ WF_vars(Cancel)
   /\ WF_vars(RetFetch \/ RetNext(TRUE) \/ RetNext(FALSE) \/ RetProbe \/ RetClose)
   /\ SF_vars(Call("close"))
 FairSpec == Spec /\ Fair
